@@ -11,10 +11,21 @@ Where the declared numbers are mutually inconsistent the oracle reports an *inte
 """
 from __future__ import annotations
 
-from decimal import Decimal, getcontext
+import functools
+from decimal import Context, Decimal, localcontext
 from fractions import Fraction
 
-getcontext().prec = 80
+# the harness's own high-precision arithmetic runs in a *local* context: the process-wide decimal context stays the
+# default one (28 digits), because the library under test computes Decimal magnitudes under whatever is ambient
+HP = Context(prec=80)
+
+
+def high_precision(fn):
+    @functools.wraps(fn)
+    def wrapper(*a, **k):
+        with localcontext(HP):
+            return fn(*a, **k)
+    return wrapper
 
 CONSISTENT_EPS = 5e-6  # smaller disagreements (per unit of degree) are absorbed by the 1e-5-per-degree tolerance
 
@@ -27,6 +38,7 @@ def F(x) -> Fraction:
     return Fraction(x)  # int exact; float -> the exact binary rational it is
 
 
+@high_precision
 def prefix_value(p) -> Fraction:
     """Exact value of a Prefix object (read from its fields, not from quantify())."""
     if p.base == 0:
@@ -49,6 +61,7 @@ def prefix_is_exact(p) -> bool:
     return p.base == 0 or isinstance(e, int) or e == int(e)
 
 
+@high_precision
 def exact_root(val: Fraction, k: int) -> Fraction:
     """k-th root of a positive Fraction, exact when it exists, else to 80 digits."""
     neg = k < 0
